@@ -25,10 +25,44 @@ PROPS = {
             "technique": "Lean 4 proof: cover / no-overspend / not-from-the-future on the engine model, closed-form failure criterion (Feasible) on the spec",
             "text": "Theorems cover_and_no_overspend and succeeds_iff_feasible hold for every history and method; correspondence on the engine stream incl. the exhausted status.",
             "design_ref": "DESIGN.md §3 C02"},
-    "C03": {"streams": [S("engine", 1500, 80000, ["fractions", "types"])], "rule": ENGINE_RULE, "assumptions": [],
+    "C03": {"streams": [S("engine", 1500, 80000, ["fractions", "types"]), S("pipeline", 600, 30000, ["types", "fractions", "status-engine", "status-crash"])], "rule": ENGINE_RULE, "assumptions": [],
             "technique": "Lean 4 proof: taxable events are a permutation of earn-IN + OUT + fee-INTRA; each event once and in full; regenerated type table",
             "text": "Theorems events_exact / events_perm / each_once_in_full; tie by Gen.Types and the engine + pipeline streams.",
             "design_ref": "DESIGN.md §3 C03"},
+    "C04": {"streams": [S("pipeline", 1200, 60000, ["figures", "status-crash"])], "rule": PIPE_RULE, "assumptions": [],
+            "technique": "Lean 4: formulas stated outright on the bit-exact 31-digit decimal model, exact parts-add-to-whole, rounding-error lemmas; bit-exact differential correspondence of every figure",
+            "text": "Theorems proceeds/cost/gain formulas, supplied-over-computed, parts_add_to_whole (exact), two_roundings_bound, round_half_even_err; "
+                    "every proceeds/cost/gain figure of generated histories is compared with the model as an exact rational, and with exact Fraction arithmetic by the oracle.",
+            "design_ref": "DESIGN.md §3 C04"},
+    "C05": {"streams": [S("pipeline", 1200, 60000, ["long", "status-crash"])], "rule": PIPE_RULE + "; C05: holding periods placed at k*period days +-{0,1us,1s}", "assumptions": [],
+            "technique": "Lean 4 proof: isLong iff period*86400e6 <= instant difference; regenerated country table; correspondence on threshold pairs",
+            "text": "Theorems long_iff, income_short, never_long on the model's Fraction.isLong; Gen.Countries periods decided; pipeline stream with threshold-seeking generator.",
+            "design_ref": "DESIGN.md §3 C05"},
+    "C06": {"streams": [S("pipeline", 1200, 60000, ["yearly", "status-crash"])], "rule": PIPE_RULE,
+            "assumptions": ["hypothesis LocalDatesMonotone (finding F6): local calendar dates never decrease along the instant order"],
+            "technique": "Lean 4 proof: insertion-ordered group-by yields one line per key, each the in-order sum of exactly its fractions; correspondence of yearly lines",
+            "text": "Theorem lines_are_sums (group_spec); yearly lines of the real ComputedData compared with the model and with an independent group-by oracle.",
+            "design_ref": "DESIGN.md §3 C06"},
+    "C07": {"streams": [S("pipeline", 1200, 60000, ["balances", "status-balance", "status-crash"])], "rule": PIPE_RULE,
+            "assumptions": ["hypotheses LocalDatesMonotone (F6), OutWithFeeConsistent, FeeFiatVisible (F12)"],
+            "technique": "Lean 4 proof: balance after any prefix = initial + acquired + received - sent per account; correspondence of BalanceSet; reconciliation oracle",
+            "text": "Theorem final_is_flows for every transaction list and account; balances of the real BalanceSet compared with the model; oracle recomputes flows and lot reconciliation.",
+            "design_ref": "DESIGN.md §3 C07"},
+    "C08": {"streams": [S("pipeline", 1200, 60000, ["balances", "status-balance", "status-crash"])], "rule": PIPE_RULE + "; C08: 25% overdrafts by 1..11 grid units and by 1 unit around the tolerance",
+            "assumptions": ["hypothesis LocalDatesMonotone (F6) for the to-date cut"],
+            "technique": "Lean 4 proof: replay fails iff some account is below tolerance after some chronological prefix (checking only debited accounts suffices); -n never rejects",
+            "text": "Theorems rejected_iff_some_prefix_overdrawn and allowed_never_rejects; overdrawn status and account compared with the model; brute-force prefix oracle.",
+            "design_ref": "DESIGN.md §3 C08"},
+    "C09": {"streams": [S("pipeline", 800, 40000, ["fractions", "figures", "long", "numbering", "yearly", "balances", "price", "status-engine", "status-crash"])], "rule": PIPE_RULE,
+            "assumptions": ["hypothesis LocalDatesMonotone (F6)"],
+            "technique": "Lean 4 proof: prefix theorem on the greedy spec (later lots/events cannot change earlier fractions) carried to the engine by refinement; correspondence on (history, truncated history) pairs",
+            "text": "Theorem earlier_fractions_unchanged (runS_prefix); oracle compares the to-date-limited run with the run on the truncated history, on the real code.",
+            "design_ref": "DESIGN.md §3 C09"},
+    "C10": {"streams": [S("pipeline", 800, 40000, ["views", "fractions", "figures", "numbering", "yearly", "balances", "price", "status-crash"])], "rule": PIPE_RULE,
+            "assumptions": ["hypothesis LocalDatesMonotone (F6)"],
+            "technique": "Lean 4 proof: a window view is the filter by [from,to] under monotone local dates; correspondence of ComputedData for random windows",
+            "text": "Theorem view_is_filter; filtered ComputedData compared with the model; oracle compares filtered run with the filter of the unfiltered run on the real code.",
+            "design_ref": "DESIGN.md §3 C10"},
 }
 
 PENDING = {}
